@@ -180,13 +180,58 @@ func ruleCbrtScaled(w *World, r *RuleResult) {
 		r.anchorMissing("(*Context).Cbrt")
 		return
 	}
-	fromDigits := func(v ssa.Value) bool {
-		for l := range w.exprOf(f, v).leaves() {
+	digitsIn := func(g *ssa.Function, v ssa.Value) bool {
+		for l := range w.exprOf(g, v).leaves() {
 			if l == "call:(*Decimal).NumDigits" || l == "call:(*BigInt).NumDigits" || l == "call:NumDigits" {
 				return true
 			}
 		}
 		return false
+	}
+	// a scaling helper: an unexported function that rewrites the Exponent of one of its *Decimal parameters
+	// from a digit count and returns a value derived from that count (the scale)
+	scaleHelper := func(h *ssa.Function) (int, bool) {
+		if h == nil || !w.inPkg(h) || h.Object() == nil || h.Object().Exported() || len(h.Blocks) == 0 {
+			return 0, false
+		}
+		pi := -1
+		for _, st := range storesIn(h) {
+			fa, ok := st.Addr.(*ssa.FieldAddr)
+			if !ok || w.exprOf(h, st.Addr).Name != "Exponent" || !digitsIn(h, st.Val) {
+				continue
+			}
+			for i, q := range h.Params {
+				if basePtr(fa.X) == ssa.Value(q) {
+					pi = i
+				}
+			}
+		}
+		if pi < 0 {
+			return 0, false
+		}
+		for _, b := range h.Blocks {
+			if rt, ok := b.Instrs[len(b.Instrs)-1].(*ssa.Return); ok {
+				if len(rt.Results) != 1 || !digitsIn(h, rt.Results[0]) {
+					return 0, false
+				}
+			}
+		}
+		return pi, true
+	}
+	fromDigits := func(v ssa.Value) bool {
+		if digitsIn(f, v) {
+			return true
+		}
+		found := false
+		w.exprOf(f, v).walk(func(e *Expr) bool {
+			if c, ok := e.V.(*ssa.Call); ok {
+				if _, isScale := scaleHelper(callee(c)); isScale {
+					found = true
+				}
+			}
+			return true
+		})
+		return found
 	}
 	// first loop header
 	var firstLoop *ssa.BasicBlock
@@ -216,11 +261,27 @@ func ruleCbrtScaled(w *World, r *RuleResult) {
 		}
 	}
 	key := "(*Context).Cbrt | exponent normalised before the range reduction"
-	if len(scaleStores) == 0 {
+	// … or a call of a scaling helper on a local Decimal
+	var scaleCall *ssa.Call
+	for _, c := range callsIn(f) {
+		call, ok := c.(*ssa.Call)
+		if !ok {
+			continue
+		}
+		if pi, isScale := scaleHelper(callee(call)); isScale && pi < len(call.Common().Args) {
+			if _, isAlloc := basePtr(call.Common().Args[pi]).(*ssa.Alloc); isAlloc && (call.Block() == firstLoop || call.Block().Dominates(firstLoop)) {
+				scaleCall = call
+			}
+		}
+	}
+	if len(scaleStores) == 0 && scaleCall != nil {
+		r.ok(key, w.instrPos(scaleCall), "the working operand's Exponent is rewritten from its adjusted exponent by "+w.calleeName(scaleCall)+" before the first loop", true)
+	} else if len(scaleStores) == 0 {
 		r.bad(key, w.pos(f.Pos()), "no store of the working operand's Exponent derived from its digit count dominates the range-reduction loops: Cbrt iterates and cubes candidates at the operand's own exponent, so operands near the exponent limits fail with 'exponent out of range' (Cbrt(8E-99999)) and the reduction by 8 runs once per three binary orders of magnitude")
 		return
+	} else {
+		r.ok(key, w.instrPos(scaleStores[0]), "the working operand's Exponent is rewritten from its adjusted exponent before the first loop", true)
 	}
-	r.ok(key, w.instrPos(scaleStores[0]), "the working operand's Exponent is rewritten from its adjusted exponent before the first loop", true)
 	// (2) every result-delivering return is dominated by an Exponent store derived from the digit count, after the loops
 	n := 0
 	for _, b := range f.Blocks {
@@ -252,4 +313,286 @@ func ruleCbrtScaled(w *World, r *RuleResult) {
 	if n == 0 {
 		r.anchorMissing("(*Context).Cbrt result-delivering returns after the iteration")
 	}
+}
+
+func init() {
+	register(&Rule{ID: "C16.R7", Min: 4,
+		Text: "results that may be stored in one object are one object to math/big: for the math/big methods with several written arguments (QuoRem: z, r; DivMod: z, m and the divisor y read after m is written; GCD: z, x, y) the views passed for two parameters are the same *big.Int whenever the two BigInts are the same object — two headers over the same inline words clobber each other and the survivor depends on the write-back order, not on math/big's assignment order",
+		Run:  ruleOutputViewsShared})
+}
+
+// multiWritten: math/big methods and the argument positions (0 = receiver) that must share a view when
+// the corresponding BigInts are the same object.
+var multiWritten = map[string][][2]int{
+	"QuoRem": {{0, 3}},
+	"DivMod": {{0, 3}, {2, 3}, {0, 2}},
+	"GCD":    {{0, 1}, {0, 2}, {1, 2}, {2, 4}},
+}
+
+func ruleOutputViewsShared(w *World, r *RuleResult) {
+	n := 0
+	for _, name := range w.Names {
+		f := w.Funcs[name]
+		if !strings.HasPrefix(name, "(*BigInt).") {
+			continue
+		}
+		for _, c := range callsIn(f) {
+			call, ok := c.(*ssa.Call)
+			if !ok {
+				continue
+			}
+			cn := w.calleeName(call)
+			if !strings.HasPrefix(cn, "(*math/big.Int).") {
+				continue
+			}
+			pairs, hit := multiWritten[strings.TrimPrefix(cn, "(*math/big.Int).")]
+			if !hit || strings.TrimPrefix(cn, "(*math/big.Int).") != f.Name() {
+				continue
+			}
+			args := call.Common().Args
+			if len(args) != len(f.Params) {
+				continue // C16.R1 reports this
+			}
+			for _, pr := range pairs {
+				i, j := pr[0], pr[1]
+				n++
+				key := fmt.Sprintf("%s | %s and %s share one view when they are one object", name, f.Params[i].Name(), f.Params[j].Name())
+				// the assumption: parameters i and j are one (non-nil) object, every other parameter is a
+				// different object (the engine's convention for a pair under analysis)
+				pidx := func(v ssa.Value) int {
+					for k, q := range f.Params {
+						if ssa.Value(q) == v {
+							return k
+						}
+					}
+					return -1
+				}
+				inE := func(k int) bool { return k == i || k == j }
+				dead, deadE := deadUnder(f, func(bo *ssa.BinOp) (bool, bool) {
+					x, y := pidx(bo.X), pidx(bo.Y)
+					eq := false
+					switch {
+					case x >= 0 && y >= 0:
+						eq = x == y || (inE(x) && inE(y))
+					case x >= 0 && inE(x) && isNilConst(bo.Y), y >= 0 && inE(y) && isNilConst(bo.X):
+						eq = false
+					default:
+						return false, false
+					}
+					return eq == (bo.Op == token.EQL), true
+				})
+				canon := func(v ssa.Value) []ssa.Value {
+					var out []ssa.Value
+					var res func(v ssa.Value, d int)
+					res = func(v ssa.Value, d int) {
+						for _, l := range liveLeaves(v, dead, deadE, 0) {
+							if hc, isC := l.(*ssa.Call); isC && d < 4 {
+								hn := w.calleeName(hc)
+								ha := hc.Common().Args
+								if (hn == "(*BigInt).innerOrAlias" || hn == "(*BigInt).innerOrNilOrAlias") && len(ha) > 3 {
+									a, b := ssa.Value(f.Params[i]), ssa.Value(f.Params[j])
+									if (ha[0] == a && ha[2] == b) || (ha[0] == b && ha[2] == a) || ha[0] == ha[2] {
+										res(ha[3], d+1)
+										continue
+									}
+								}
+							}
+							out = append(out, l)
+						}
+					}
+					res(v, 0)
+					return out
+				}
+				ci, cj := canon(args[i]), canon(args[j])
+				same := len(ci) == 1 && len(cj) == 1 && ci[0] == cj[0]
+				if same {
+					r.ok(key, w.instrPos(call), "under "+f.Params[i].Name()+" == "+f.Params[j].Name()+" both positions receive the same *big.Int", true)
+				} else {
+					r.bad(key, w.instrPos(call), fmt.Sprintf("when %s and %s are the same BigInt, big.Int.%s is still given two different *big.Int headers over the same words: the two results clobber each other, and what the object holds afterwards depends on the order of the write-backs (z.QuoRem(5, 2^64+5, z) gave 0 where math/big, and the uint64 fast path, give 5)", f.Params[i].Name(), f.Params[j].Name(), f.Name()))
+				}
+			}
+		}
+	}
+	if n == 0 {
+		r.anchorMissing("BigInt wrappers of QuoRem / DivMod / GCD")
+	}
+}
+
+func init() {
+	register(&Rule{ID: "C06.R11", Min: 20,
+		Text: "a failed operation leaves no interim value: in every exported Context operation, an error return that can be reached after the destination was written (an intermediate result computed in place, possibly in a scratch value when the destination is an operand) is preceded by a whole-value overwrite of the destination with no write after it — otherwise what the destination holds after the error depends on whether it aliases an operand (Pow left x**int(y) in a distinct destination and x in an aliased one)",
+		Run:  ruleNoInterimOnError})
+}
+
+func ruleNoInterimOnError(w *World, r *RuleResult) {
+	n := 0
+	for _, name := range w.Names {
+		f := w.Funcs[name]
+		if !strings.HasPrefix(name, "(*Context).") || f.Object() == nil || !f.Object().Exported() {
+			continue
+		}
+		di := destArgIndex(w, f)
+		if di >= len(f.Params) || !isDecimalPtr(f.Params[di].Type()) || w.roles(f)[di] != RoleDest {
+			continue
+		}
+		d := ssa.Value(f.Params[di])
+		p := w.newProv(f, nil)
+		writesD := func(in ssa.Instruction) bool {
+			for _, e := range w.instrEffects(p, in, nil) {
+				if e.Write && e.Loc.Root.Kind == RParam && e.Loc.Root.Param == di {
+					return true
+				}
+			}
+			return false
+		}
+		whole := func(in ssa.Instruction) bool {
+			c, ok := in.(*ssa.Call)
+			if !ok {
+				return false
+			}
+			g := callee(c)
+			if g == nil || len(c.Common().Args) == 0 || basePtr(c.Common().Args[0]) != d {
+				return false
+			}
+			return wholeValueWriters[w.shortName(g)] || w.shortName(g) == "(*Context).setAsNaN"
+		}
+		var writers []ssa.Instruction
+		for _, b := range f.Blocks {
+			for _, in := range b.Instrs {
+				if writesD(in) {
+					writers = append(writers, in)
+				}
+			}
+		}
+		for _, b := range f.Blocks {
+			rt, ok := b.Instrs[len(b.Instrs)-1].(*ssa.Return)
+			if !ok || !w.definitelyErrorReturn(rt) {
+				continue
+			}
+			n++
+			key := fmt.Sprintf("%s | error return leaves no interim value", name)
+			if k := countKey(r, key); k > 0 {
+				key = fmt.Sprintf("%s #%d", key, k+1)
+			}
+			// backwards from the return: the last write on each path must be a whole-value write
+			var bad ssa.Instruction
+			// the error returned comes from these calls: a destination last written by the failing call
+			// itself holds that call's own (failed or trapped) output, not an interim value of this function
+			errFrom := map[ssa.Value]bool{}
+			for _, v := range rt.Results {
+				if isErrorType(v.Type()) {
+					w.exprOf(f, v).walk(func(e *Expr) bool {
+						if ex, ok := e.V.(*ssa.Extract); ok {
+							errFrom[ex.Tuple] = true
+						}
+						return true
+					})
+				}
+			}
+			seen := map[string]bool{}
+			var back func(bb *ssa.BasicBlock, from int, notSet map[ssa.Value]bool)
+			back = func(bb *ssa.BasicBlock, from int, notSet map[ssa.Value]bool) {
+				if bad != nil {
+					return
+				}
+				for i := from; i >= 0; i-- {
+					in := bb.Instrs[i]
+					if whole(in) {
+						return
+					}
+					if writesD(in) {
+						if c, isCall := in.(*ssa.Call); isCall {
+							if notSet[c] && w.writesOnlyWhenTrue(callee(c), f, c, di) {
+								continue // a (set, …) helper whose `set` result was false on this path: it wrote nothing
+							}
+							// (only when the call wrote the destination itself, not "the destination or a scratch
+							// value" chosen by an aliasing test: then what the destination holds differs)
+							direct := false
+							for _, a := range c.Common().Args {
+								if a == d {
+									direct = true
+								}
+							}
+							if errFrom[c] && direct {
+								return
+							}
+							// … or the return sits on the error edge of that very call
+							own := false
+							for blk, idx := range errTestEdges(f, c) {
+								if succ := blk.Succs[idx]; succ == rt.Block() || succ.Dominates(rt.Block()) {
+									own = true
+								}
+							}
+							if own && direct {
+								return
+							}
+						}
+						bad = in
+						return
+					}
+				}
+				for pi, pb := range bb.Preds {
+					_ = pi
+					ns := notSet
+					// entering bb from pb through the false edge of `if set` where set is result #0 of a call
+					if iff, isIf := pb.Instrs[len(pb.Instrs)-1].(*ssa.If); isIf && len(pb.Succs) == 2 && pb.Succs[1] == bb && pb.Succs[0] != bb {
+						if ex, isEx := iff.Cond.(*ssa.Extract); isEx && ex.Index == 0 {
+							ns = map[ssa.Value]bool{}
+							for k := range notSet {
+								ns[k] = true
+							}
+							ns[ex.Tuple] = true
+						}
+					}
+					key := fmt.Sprintf("%d/%d", pb.Index, len(ns))
+					if !seen[key] {
+						seen[key] = true
+						back(pb, len(pb.Instrs)-1, ns)
+					}
+				}
+			}
+			back(b, len(b.Instrs)-2, map[ssa.Value]bool{})
+			if bad == nil {
+				r.ok(key, w.instrPos(rt), "on every path the destination is untouched, or its last write before this return is a whole-value overwrite", len(writers) > 0)
+			} else {
+				r.bad(key, w.instrPos(rt), fmt.Sprintf("this error return can be reached with the destination last written at %s by an intermediate step: it keeps an interim value, and a different one when the destination is also an operand (the step then works in a scratch value)", w.instrPos(bad)))
+			}
+		}
+	}
+	if n == 0 {
+		r.anchorMissing("error returns of exported Context operations")
+	}
+}
+
+// definitelyErrorReturn: the return's error result is definitely non-nil (not merely possibly).
+func (w *World) definitelyErrorReturn(rt *ssa.Return) bool {
+	for _, v := range rt.Results {
+		if isErrorType(v.Type()) && w.definitelyNonNil(v, rt.Block()) {
+			return true
+		}
+	}
+	return false
+}
+
+// writesOnlyWhenTrue: g returns a bool first and writes the destination it is handed only on the
+// executions on which that bool is true (the *Specials helpers).
+func (w *World) writesOnlyWhenTrue(g, f *ssa.Function, c *ssa.Call, di int) bool {
+	if g == nil || !w.inPkg(g) || g.Signature.Results().Len() == 0 || g.Signature.Results().At(0).Type().String() != "bool" {
+		return false
+	}
+	for i, a := range c.Common().Args {
+		if basePtr(a) != ssa.Value(f.Params[di]) || i >= len(g.Params) || !isPointer(g.Params[i].Type()) {
+			continue
+		}
+		fr := w.flow(g, i, -1)
+		if !fr.Split {
+			return false
+		}
+		for _, tags := range fr.MayF {
+			if len(tags) > 0 {
+				return false
+			}
+		}
+	}
+	return true
 }
